@@ -7,7 +7,7 @@ spec/Blob.tla      layout function of sparse shares for (data length, signer): n
                    reconstruct_all result.
 spec/Commitment.tla ADR-013 SubtreeWidth and merkle-mountain-range partition; TLC checks the algebra and
                    emits the partition per share count; the harness recomputes the commitment from the
-                   partition with nmt-rs + RFC-6962 hashing, independent of commitment.rs.
+                   partition with own sha2 NMT hashing + tendermint RFC-6962 root, independent of commitment.rs.
 """
 import json
 import vf
@@ -36,13 +36,13 @@ ENTRIES = {
                 "TLC checks for every share count that the sizes are powers of two <= the width, non-increasing, sum to "
                 "n, that only sizes below the width are unique, and that the width is the least power of two >= "
                 "ceil(n/64) capped by the minimal square size, and emits the partition. The harness computes the "
-                "commitment from that partition with its own NMT leaf/inner hashing over nmt-rs primitives and its own "
-                "RFC-6962 root (sha2), for real blobs of exactly that many shares (both share versions, all allowed app "
+                "commitment from that partition with its own share splitter, its own NMT leaf/inner hashing (sha2) and the "
+                "tendermint RFC-6962 root, for real blobs of exactly that many shares (both share versions, all allowed app "
                 "versions), compares with Commitment::from_blob / from_shares / Blob::new, and checks Blob::validate "
                 "accepts the untouched blob and rejects tampered data, namespace, signer, share version and commitment.",
         "design_ref": "7 C12",
-        "note": "Trusted base: SHA-256 (sha2 crate) and the NMT node format of nmt-rs used by the independent "
-                "recomputation. Quick tier covers 1..600 shares (every count) plus the boundary counts of every power of "
+        "note": "Trusted base: SHA-256 (sha2 crate), the NMT node format (min ns | max ns | digest) and "
+                "tendermint::merkle::simple_hash_from_byte_vectors used by the independent recomputation. Quick tier covers 1..600 shares (every count) plus the boundary counts of every power of "
                 "two width up to 5000; thorough covers every count 1..5000. The subtree threshold is 64 for every app "
                 "version in the tree; other thresholds are exercised in the model only.",
         "technique": "TLA+ partition function checked and enumerated by TLC; independent recomputation in the harness",
@@ -60,7 +60,7 @@ def run(ck):
         maxlen = 4096
         sl = 3 if ck.quick else 4
         consts = {"MaxLen": maxlen, "StreamLen": sl}
-        ck.tlc_mc("MC_Blob", ck.cfg_with("MC_Blob.cfg", consts))
+        ck.tlc_mc("MC_Blob", ck.cfg_with("MC_Blob.cfg", consts), workers=1)
         cases, _ = ck.tlc_gen("Gen_Blob", ck.cfg_with("Gen_Blob.cfg", consts), "blob.ndjson", count_stats=False)
         s = ck.harness(hb, ["replay", "blob", cases, "--seed", ck.seed], "blob")
         ck.absorb(s, classify)
@@ -80,7 +80,7 @@ def run(ck):
 def run_c12(ck, hb):
     nmax = 5000
     consts = {"NMax": nmax, "Thresholds": "{64}" if ck.quick else "{1, 2, 7, 64, 100}", "Dense": 600 if ck.quick else nmax}
-    ck.tlc_mc("MC_Commitment", ck.cfg_with("MC_Commitment.cfg", consts))
+    ck.tlc_mc("MC_Commitment", ck.cfg_with("MC_Commitment.cfg", consts), workers=1)
     cases, _ = ck.tlc_gen("Gen_Commitment", ck.cfg_with("Gen_Commitment.cfg", dict(consts, Thresholds="{64}")),
                           "commitment.ndjson", count_stats=False)
     s = ck.harness(hb, ["replay", "commitment", cases, "--seed", ck.seed], "commitment")
@@ -88,8 +88,8 @@ def run_c12(ck, hb):
     ck.cov["exhaustive"] = True
     ck.cov["rule"] = ("every share count emitted by TLC (quick: 1..600 and +-2 around every multiple of 64*width "
                       "boundary / power of two up to 5000; thorough: every count 1..5000) is executed with a real blob "
-                      "of that many shares; non-trivial = distinct (share count, share version); each also runs 5 "
-                      "tamperings through Blob::validate")
+                      "of that many shares; non-trivial = distinct (share count, share version); each also runs the spec's 7 "
+                      "tamperings (2 random ones above 600 shares) through Blob::validate")
     ck.assumptions += ["SHA-256 and the NMT node format (min ns | max ns | sha256) are the trusted base of the "
                        "independent recomputation"]
 
